@@ -198,7 +198,27 @@ def rule_secret_branches(S, res):
                     if s["k"] == "assign" and s["r"]["k"] == "agg" and s["r"].get("adt", "").endswith("option::Option"):
                         # an optional slot whose presence is decided here: only a problem if it is sent
                         dst = fg.node_of_place(k, s["p"])
-                        fwd = fg.forward([dst], edge_ok=secmod.struct_edge, node_ok=lambda n: n[0] != "F" and fg.bodies[n[0]].owner == b.owner, local=True)
+                        dsts = [dst]
+                        # the slot value may be built in a temporary and moved into the message afterwards
+                        # (`v[i] = cond.then_some(x)`): follow plain moves of that temporary to the store
+                        if not s["p"]["pr"]:
+                            holders = {s["p"]["l"]}
+                            for _ in range(4):
+                                for blk2 in b.blocks:
+                                    for s2 in blk2["s"]:
+                                        if s2["k"] == "assign" and s2["r"]["k"] == "use" and s2["r"]["o"]["k"] != "const" and not s2["r"]["o"]["p"]["pr"] and s2["r"]["o"]["p"]["l"] in holders:
+                                            if s2["p"]["pr"]:
+                                                dsts.append(fg.node_of_place(k, s2["p"]))
+                                            else:
+                                                holders.add(s2["p"]["l"])
+                                        elif s2["k"] == "assign" and s2["r"]["k"] == "agg" and s2["r"].get("thr") and s2["r"]["ops"] and s2["r"]["ops"][0]["k"] != "const" and s2["r"]["ops"][0]["p"]["l"] in holders:
+                                            if s2["p"]["pr"]:
+                                                dsts.append(fg.node_of_place(k, s2["p"]))
+                                            else:
+                                                holders.add(s2["p"]["l"])
+                        # (a store through `v.index_mut(i)` / `get_mut` reaches the container over an alias edge)
+                        fwd = fg.forward(dsts, edge_ok=lambda e: secmod.struct_edge(e) or (e.kind in ("alias", "alias_fb") and (not isinstance(e.info, dict) or not e.info.get("names") or e.info["names"][0].rsplit("::", 1)[-1] in ("index_mut", "get_mut", "deref_mut", "as_mut", "iter_mut", "last_mut", "first_mut"))),
+                                         node_ok=lambda n: n[0] != "F" and fg.bodies[n[0]].owner == b.owner, local=True)
                         for ss in S.send_sites:
                             if ss.body.owner == b.owner and any(n in fwd for n in fg.operand_nodes(ss.bk, ss.term["args"][-1])):
                                 probs.append((x, "the Some/None pattern of a message slot"))
